@@ -485,7 +485,7 @@ def fits(v, w, kind):
     return -(2**(w - 1)) <= v < 2**w
 
 
-IMM_MEMS = [("rbx", None, None, None), ("rbx", "rcx", 2, None), ("rax", "rcx", 2, None), ("r9", None, None, 0x10), ("rax", None, None, None), ("ebp", None, None, None)]
+IMM_MEMS = [("rbx", None, None, None), ("rbx", "rcx", 2, None), ("rax", "rcx", 2, None), ("r9", None, None, 0x10), ("rax", None, None, None)]
 
 
 def gen_imm(rnd, full=False):
